@@ -307,6 +307,9 @@ func (n *NodeGroup) DeleteNodes(nodes ...*v1.Node) error {
 			return fmt.Errorf("failed to terminate instance. err: %v", err)
 		}
 		log.Debug(*result.Activity.Description)
+
+		// the termination decremented the desired capacity; keep the cached value in step until the next refresh
+		n.asg.DesiredCapacity = awsapi.Int64(n.TargetSize() - 1)
 	}
 
 	return nil
